@@ -116,7 +116,7 @@ with clist (l r:ty) {struct l} : cres :=
           | CPanic => CPanic end
       | _ => CPanic
       end
-  | TAtom _ => match r with TAtom _ => COk l [] false | _ => CPanic end
+  | TAtom a => match r with TAtom b => if Nat.eqb a b then COk l [] false else CPanic | _ => CPanic end
   | TVar _ => CPanic
   end.
 
